@@ -46,7 +46,8 @@ func checkC04(c *hx.Ctx) {
 		if i%6 == 0 {
 			types = ref.KeyTypes
 		}
-		pc := hx.NewClient(hx.NewVersion(p, hx.VersionOpts{}))
+		pc := hx.NewClient(hx.NewVersion(p, hx.VersionOpts{ParserOpts: hx.StrictResolution()}))
+		intakePC := hx.NewClient(hx.NewVersion(p, hx.VersionOpts{}))
 		if i%2 == 0 {
 			// ---- (a) + (b): deactivation is terminal
 			ch := RandomChain(r.Split("chain"), ref.SHA256, p, types, r.Intn(5), true)
@@ -95,7 +96,7 @@ func checkC04(c *hx.Ctx) {
 			proc := processor.New("verif", store, pc)
 			w := &hx.RecWriter{}
 			unpub := &recUnpub{}
-			dh := dochandler.New(hx.Namespace, nil, pc, w, proc, hx.NopMetrics{}, dochandler.WithUnpublishedOperationStore(unpub, allOpTypes))
+			dh := dochandler.New(hx.Namespace, nil, intakePC, w, proc, hx.NopMetrics{}, dochandler.WithUnpublishedOperationStore(unpub, allOpTypes))
 			for _, e := range pool {
 				if e.Type == "create" || !e.Authorised {
 					continue
